@@ -110,8 +110,10 @@ def run(db, rep, feat, tier):
         elif c.endswith("BTreeMap::<K, V, A>::entry"):
             maps["instruction_indices"] = tm.operand(t["args"][0])
     for i, t in mir_calls(body):
-        if (mir_callee(t) or "").endswith("BTreeMap::<K, V, A>::insert") and "(usize, usize)" in (t.get("fg") or "") and \
-                tm.operand(t["args"][0]) != maps.get("instruction_indices"):
+        # the per-block map: the address-keyed map that is neither the result map nor the per-address map (its values are the
+        # (entry, exit) vertex pair of a block, as a tuple or as a small struct)
+        if (mir_callee(t) or "").endswith("BTreeMap::<K, V, A>::insert") and "BTreeMap::<u64," in (t.get("fg") or "") and \
+                tm.operand(t["args"][0]) not in (maps.get("instruction_indices"), maps.get("translation_results")):
             maps["block_indices"] = tm.operand(t["args"][0])
     rep.anchor(fa is not None and len(maps) == 4, "function address parameter, work list, result map, per-address map, per-block map")
     is_fa = lambda t: uses(t, lambda k: k == ("param", fa))
@@ -272,6 +274,8 @@ def run(db, rep, feat, tier):
     binsert = [(i, t) for i, t in calls(body, "BTreeMap::<K, V, A>::insert") if recv(t, "block_indices")]
     rep.anchor(len(binsert) == 1, "block_indices.insert")
     v = tm.operand(binsert[0][1]["args"][2])
+    if isinstance(v, tuple) and v[0] == "agg" and len(v) >= 3 and len(v[2]) == 2:
+        v = ("tuple", v[2])        # a two-field struct carrying the pair (fields are positional in MIR)
     ok = isinstance(v, tuple) and v[0] == "tuple" and len(v[1]) == 2
     comp = []
     if ok:
@@ -286,6 +290,8 @@ def run(db, rep, feat, tier):
             return set()
         for c_ in v[1]:
             comp.append(outer(c_))
+    rep.anchor(ok and (comp[0] or comp[1]), "the (entry, exit) pair recorded per block is built from components of the instruction pairs "
+               "(form not recognised)")
     r.decide(ok and ".0" in comp[0] and ".1" not in comp[0] and ".1" in comp[1] and ".0" not in comp[1], "recorded_pair", where(binsert[0][0]),
              "the pair recorded per block must be (entry component, exit component) of its instructions; components use %s" % comp)
 
